@@ -117,7 +117,7 @@ func ruleDeleg(e *Env, rule, pkg string) {
 		}
 	}
 	run := func(fn *ssa.Function, args func() []pred.Val) []leaf {
-		leaves, err := extractTree(e.P.SSA, fn, args, sums, nil, errKeyOf, binDomain)
+		leaves, err := extractTreeWith(e.P.SSA, fn, args, sums, nil, errKeyOf, binDomain, e.globalTables())
 		if err != nil {
 			e.S.Unk(rule, flow.FnName(fn), "delegation", err.Error(), e.Pos(fn))
 			return nil
@@ -210,9 +210,27 @@ func ruleDeleg(e *Env, rule, pkg string) {
 					if s, ok := b.(pred.Sym); ok && s.Name == "verb" {
 						return -1, true, true
 					}
+					// the verb looked up in a package-level table of verbs: an undocumented verb is not a key, provided
+					// every key of the table is one of the documented verbs (each of which has its own scenario)
+					if tm, ok := a.(pred.Term); ok && tm.Fn == "lookup#1" && len(tm.Args) == 2 && tm.Args[1].String() == "verb" && b.String() == "true" {
+						if mv, ok := e.globalTables()(strings.TrimPrefix(tm.Args[0].String(), "*") + "#map"); ok {
+							if m, ok := mv.(*pred.MapV); ok {
+								for k := range m.Entries {
+									var r int64
+									if _, err := fmt.Sscan(k, &r); err != nil {
+										return 0, false, false
+									}
+									if _, documented := spec.verbs[rune(r)]; !documented {
+										return 0, false, false
+									}
+								}
+								return 1, true, true
+							}
+						}
+					}
 					return 0, false, false
 				}
-				leaves, err := extractTree(e.P.SSA, fn, func() []pred.Val { return []pred.Val{pred.Sym{Name: R}, pred.Sym{Name: "state"}, c.verb} }, sums, fixed, errKeyOf, binDomain)
+				leaves, err := extractTreeWith(e.P.SSA, fn, func() []pred.Val { return []pred.Val{pred.Sym{Name: R}, pred.Sym{Name: "state"}, c.verb} }, sums, fixed, errKeyOf, binDomain, e.globalTables())
 				if err != nil {
 					e.S.Unk(rule, site, c.name, err.Error(), e.Pos(fn))
 					continue
